@@ -137,6 +137,14 @@ impl World<'_> {
             Msg::Vote(k, slot, h, signer) => {
                 let vv = self.validated(*k, *slot, *h, *signer);
                 let op = format!("nv {j} {} {slot} {h} {signer}", k.name());
+                // C05 `node_fallback_only_after_vote`: the unforgeability premise of the composed-node theorems
+                // (`OwnVotesFromVotor`) — a vote signed by the recipient itself is one its own Votor broadcast before
+                if *signer == j {
+                    let hv = match k { K::Notar => HV::Notar(*slot, *h), K::Nf => HV::Nf(*slot, *h), K::Skip => HV::Skip(*slot), K::Sf => HV::Sf(*slot), K::Final => HV::Fin(*slot) };
+                    let mine = self.history[j].contains(&hv);
+                    self.rec.count("own-vote-loopback");
+                    self.rec.oracle(mine, "own-vote-not-from-own-votor", || format!("{op}: node {j} receives a vote signed by itself that its Votor never broadcast"));
+                }
                 let node = self.nodes[j].as_mut().expect("node");
                 let rt = &self.rt;
                 let res = catch(|| rt.block_on(node.pool.add_vote(vv)));
@@ -212,6 +220,7 @@ impl World<'_> {
                     let (k, slot, h, signer) = vote_parts(keys, &v);
                     outs.push(match k { K::Notar => format!("notar {slot} {h}"), K::Nf => format!("nf {slot} {h}"), K::Skip => format!("skip {slot}"), K::Sf => format!("sf {slot}"), K::Final => format!("final {slot}") });
                     self.rec.oracle(signer == j, "vote-wrong-signer", || format!("node {j} broadcast a vote signed as {signer}"));
+                    self.rec.count(&format!("cast:{}", k.name()));
                     let hv = match k { K::Notar => HV::Notar(slot, h), K::Nf => HV::Nf(slot, h), K::Skip => HV::Skip(slot), K::Sf => HV::Sf(slot), K::Final => HV::Fin(slot) };
                     self.check_rules(j, hv);
                     self.history[j].push(hv);
